@@ -2,7 +2,7 @@
 // C20 layout reproducibility).
 //   h_layout run <cases.txt> <out.json> [chunk]
 // One case per line (integers):
-//   n  (w h x y)*n   m (u v)*m   flags   ncons cons...   ngroups (k ids..)*   nclusters (pad margin parent k nodes..)*   (parent: -1 = root, else index of an earlier cluster)
+//   n  (w h x y)*n   m (u v)*m   flags (1 overlap avoidance, 2 makeFeasible, 4 majorization, 8 neighbour stress, 32 makeFeasible only, 64 exemptions declared twice)   ncons cons...   ngroups (k ids..)*   nclusters (pad margin parent k nodes..)*   (parent: -1 = root, else index of an earlier cluster)
 //   flags: bit0 avoid overlaps, bit1 makeFeasible before run, bit2 use ConstrainedMajorizationLayout,
 //          bit3 neighbour stress, bit4 run twice with heap churn in between (C20)
 //   cons:  1 dim l r gap eq | 2 dim k (i off)*k fixed pos | 3 dim k (i off)*k | 4 dim min eq np (a1 a2)*np
@@ -126,6 +126,16 @@ static RunResult runLayout(const Case &c)
                 alg.setClusterHierarchy(root);
             }
             if (c.flags & 8) alg.setUseNeighbourStress(true);
+            if ((c.flags & 64) && (c.flags & 1)) {
+                // flag 64: the exemptions are declared twice on one layout object -- first every node exempt from every other and a layout
+                // with that, then the declaration the record carries (possibly none at all) and the layout that is judged
+                ListOfNodeIndexes all; NodeIndexes everyone; for (unsigned v = 0; v < rs.size(); v++) everyone.push_back(v); all.push_back(everyone);
+                alg.setAvoidNodeOverlaps(true, all);
+                alg.makeFeasible(); alg.run();
+                ListOfNodeIndexes groups;
+                for (auto &g : c.groups) { NodeIndexes ni; for (int v : g) ni.push_back(v); groups.push_back(ni); }
+                if (groups.empty()) alg.setAvoidNodeOverlaps(true); else alg.setAvoidNodeOverlaps(true, groups);
+            }
             if (c.flags & 2) alg.makeFeasible();
             if (!(c.flags & 32)) alg.run();        // flag 32: makeFeasible() alone
         }
